@@ -31,10 +31,12 @@ SpecPre(s, a) ==
     [] a.a = "remove_block"   -> PreRemoveBlock(s, a.n)
     [] a.a = "connect"        -> PreConnect(s, ActOther(a), a.tc, a.oc, a.right, a.name, a.pfx)
     [] a.a = "into_bench"     -> PreIntoBench(s)
+    [] a.a = "replace_subcircuit" -> PreReplaceSub(s, NormD(a.sub), a.im, a.om)
     [] OTHER                  -> TRUE
 SpecHasDo(a) == a.a \in {"add_gate", "remove_gate", "rename_gate", "mark_as_output",
    "set_outputs", "set_inputs", "order_inputs", "order_outputs", "replace_inputs",
-   "make_block", "make_block_from_slice", "delete_block", "remove_block", "connect"}
+   "make_block", "make_block_from_slice", "delete_block", "remove_block", "connect",
+   "replace_subcircuit"}
 SpecDo(s, a) ==
   CASE a.a = "add_gate"       -> DoAddGate(s, a.l, a.t, a.ops)
     [] a.a = "remove_gate"    -> DoRemoveGate(s, a.l)
@@ -52,6 +54,7 @@ SpecDo(s, a) ==
     [] a.a = "remove_block"   -> DoRemoveBlock(s, a.n)
     [] a.a = "connect"        -> DoConnect(s, ActOther(a), a.tc, a.oc, a.right, a.name, a.pfx,
                                            FALSE, FALSE)
+    [] a.a = "replace_subcircuit" -> DoReplaceSub(s, NormD(a.sub), a.im, a.om)
 
 (* DRIFT: the implementation step is not the step the specification takes.
    Only evaluated when the recorded pre-state is well formed (the model's domain). *)
